@@ -42,7 +42,10 @@ Record gen := mkgen {
 
 (* ---- control points of the run goroutine ---- *)
 Inductive why := WClosed (* gen.close() on a <-cg.done branch *) | WEnded (* on the <-gen.done branch *).
-Inductive after := LvExit (* ErrGroupClosed: leave, return *) | LvReport (e : errclass) (* default: leave, clear id, report, back off *).
+Inductive after :=
+| LvExit                      (* ErrGroupClosed: leave, return *)
+| LvExitOffer (e : errclass)  (* <-cg.done while offering error e on cg.errs: leave, return *)
+| LvReport (e : errclass).    (* default: leave, clear id, report, back off *)
 Inductive pcs :=
 | PConnect | PJoin | PSync | PFetch           (* nextGeneration up to the offset fetch *)
 | PStartHB | PStartWatch (n : nat)            (* gen.heartbeatLoop / gen.partitionWatcher × n *)
@@ -173,6 +176,7 @@ Definition exit_run (x : exitkind) (s : state) : state := set_pc PExited (ev (HR
 Definition finish_leave (a : after) (s : state) : state :=
   match a with
   | LvExit => exit_run XClosed s
+  | LvExitOffer e => exit_run (XOffer e) s
   | LvReport e => set_pc (POffer e true) (set_mid None s)
   end.
 Definition enter_leave (a : after) (s : state) : state :=   (* cg.leaveGroup(memberID) *)
@@ -286,7 +290,7 @@ Definition step (s : state) (l : label) : option state :=
     | _, _ => None end
   | LOfferAbort =>
     match pc s with
-    | POffer e _ => if cg_done s then Some (exit_run (XOffer e) s) else None
+    | POffer e _ => if cg_done s then Some (enter_leave (LvExitOffer e) s) else None  (* leaveGroup(memberID); return *)
     | _ => None end
   | LNextErr n =>
     match pc s with
@@ -465,16 +469,6 @@ Definition chk_leave_full (e : event) (h : list event) : bool :=
   end.
 Fixpoint mon_leave_full (h : list event) : bool :=
   match h with [] => true | e :: t => chk_leave_full e t && mon_leave_full t end.
-(* what the code guarantees: the same except on the exit from the error offer after
-   RebalanceInProgress *)
-Definition chk_leave (e : event) (h : list event) : bool :=
-  match e with
-  | HRunExit (XOffer ERebalance) (Some _) => true
-  | _ => chk_leave_full e h
-  end.
-Fixpoint mon_leave (h : list event) : bool :=
-  match h with [] => true | e :: t => chk_leave e t && mon_leave t end.
-
 (* cancel on end: a generation's done is closed (HDone) no later than the first return
    ... on the implementation's timeline the harness records HDone when it observes
    the closed channel, so the monitor asks: every HNextRet/HGenNew of a later
@@ -493,9 +487,10 @@ Fixpoint mon_done (h : list event) : bool :=
   match h with [] => true | e :: t => chk_done e t && mon_done t end.
 
 Definition C15_holds (h : list event) : bool :=
-  mon_one_live h && mon_heartbeat h && mon_backoff h && mon_leave h && mon_done h.
+  mon_one_live h && mon_heartbeat h && mon_backoff h && mon_leave_full h && mon_done h.
 
-(* ---- the F5 witness: join ok as member 1, SyncGroup answers RebalanceInProgress, nobody
-   calls Next, Close ---- *)
-Definition f5_witness : list label :=
-  [LCoord AOk; LJoin (JOk 1 NotLeader); LSync (AErr ERebalance); LCloseCall 0; LOfferAbort; LCloseRet 0].
+(* ---- the former F5 scenario, kept as a regression: join ok as member 1, SyncGroup answers
+   RebalanceInProgress, nobody calls Next, Close; run must now leave before it exits ---- *)
+Definition f5_scenario : list label :=
+  [LCoord AOk; LJoin (JOk 1 NotLeader); LSync (AErr ERebalance); LCloseCall 0; LOfferAbort;
+   LLeaveCoord AOk; LLeaveReq AOk; LCloseRet 0].
